@@ -2116,7 +2116,9 @@ func (a *Agent) TaskPrepare(Command int, Info any, Message *map[string]string, C
 
 			a.SocksSvrMtx.Lock()
 
-			for i := range a.SocksSvr {
+			/* always take the first server: the array shrinks while we go */
+			for len(a.SocksSvr) > 0 {
+				var i = 0
 
 				/* close the server */
 				a.SocksSvr[i].Server.Close()
